@@ -1,7 +1,7 @@
 """C14 - retry makes exactly the allowed attempts and reports the true last outcome.
 
 The wrapped function is a scripted test double: its k-th invocation produces the k-th outcome of a
-sequence over {S success, C caught exception, Cs subclass of caught, U uncaught Exception,
+sequence over {S success, G exception group holding one exception of the caught class, C caught exception, Cs subclass of caught, U uncaught Exception,
 X CancelledError, XC a CancelledError subclass that is also an instance of the caught class, B other BaseException}; every value / exception object is unique, so identity
 tells which attempt the caller finally saw. A 15-line reference loop predicts: number of
 invocations, the caller's outcome object, the pauses (virtual-clock gaps for async, recorded
@@ -78,7 +78,7 @@ CATCHING = {
     "default": lambda: None,  # retry(...) without catching: every Exception is caught
 }
 DELAYS = ("none", "int", "float", "func", "zero")
-TERMINAL = ("S", "U", "X", "B", "XC")
+TERMINAL = ("S", "U", "X", "B", "XC", "G")
 
 
 def sequences(limit: int):  # noqa: ANN201
@@ -88,11 +88,17 @@ def sequences(limit: int):  # noqa: ANN201
                 yield (*pre, t)
     for pre in itertools.product(("C", "Cs"), repeat=limit + 1):
         yield pre
+    yield ("G",) * (limit + 1)
+    yield ("C", "G") * limit
 
 
 def make_outcome(kind: str, i: int) -> tuple[str, Any]:
     if kind == "S":
         return "value", ("result", i, object())
+    if kind == "G":
+        # what a function built on a task group raises when one of its tasks failed: an exception group with a single member of the caught
+        # class. The group is the exception; it is an instance of ExceptionGroup / Exception, not of its member's class
+        return "raise", ExceptionGroup(f"attempt-{i}", [CaughtErr(f"attempt-{i}-member")])
     cls = {"C": CaughtErr, "Cs": CaughtSub, "U": Uncaught, "X": asyncio.CancelledError, "B": Fatal, "XC": CancelledCaught}[kind]
     return "raise", cls(f"attempt-{i}")
 
